@@ -5,6 +5,7 @@ import ast
 
 from ..chains import chain_arms
 from ..loader import AnalysisError, call_attr, call_name, dotted, unparse
+from . import c01
 from ..rulekit import arg_of, const_value, def_value, is_none_test, local_defs
 from . import c02
 
@@ -298,7 +299,10 @@ def rule_send_guard(ctx):
     fm = ctx.fn("aiokafka.producer.transaction_manager.TransactionManager.maybe_add_partition_to_txn")
     cm = ctx.cfg(fm)
     asr = [n for n in cm.nodes if n.kind == "assert" and "is_in_transaction()" in unparse(n.ast.test)]
-    nt = [t for t in cm.nodes if t.kind == "test" and is_none_test(t.ast) is not None and unparse(is_none_test(t.ast)) == "self.transactional_id"]
+    from ..rulekit import none_tests as _nts
+    nts_ = _nts(cm, "self.transactional_id")
+    nt = [t for t, _a, _b in nts_]
+    l_none = nts_[0][1] if nts_ else "T"
     ok = bool(asr) and len(nt) == 1
     if ok:
         # every normal path to the exit passes the assert, except the one that found no transactional id
@@ -312,7 +316,7 @@ def rule_send_guard(ctx):
                 hit = True
                 break
             for m, l in n.succ:
-                if l == "exc" or (n is nt[0] and l == "T"):
+                if l == "exc" or (n is nt[0] and l == l_none):
                     continue
                 stack.append(m)
         ok = not hit
@@ -557,6 +561,7 @@ def run(ctx):
     rule_send_guard(ctx)
     rule_registry_reset(ctx)
     rule_error_tables(ctx)
+    c01.rule_errno_unique(ctx, "error-effects")
     c02.rule_future_ownership(ctx)
     rep.nd("atomicity as seen by a read-committed reader under all fault / crash points (needs histories)")
     rep.nd("liveness: every transaction ends the way requested once faults cease")
